@@ -94,33 +94,42 @@ func (d ZDoc) Title() string { return "title-method-of-doc" }
 type ZOuter struct {
 	ZBase
 	*ZPEmb
-	Name    string
-	Num     int
-	U8      uint8
-	F       float64
-	B       bool
-	In      ZInner
-	PIn     *ZInner
-	PPIn    **ZInner
-	Items   []int
-	Strs    []string
-	Anys    []interface{}
-	Arr     [3]int
-	M       map[string]int
-	MI      map[int]string
-	MN      map[ZKey]string
-	MA      map[string]interface{}
-	MP      map[string]*ZInner
-	MK      map[interface{}]string
-	ME      map[string]string // has the empty string as a key
-	Iface   interface{}
-	SF      ZShadowFirst
-	SL      ZShadowLast
-	DP      ZDeep
-	Word    string
-	Nest    ZN0
-	Win     []string // a window on a longer backing array: cap > len
-	PS      ZPtrShallow
+	Name  string
+	Num   int
+	U8    uint8
+	F     float64
+	B     bool
+	In    ZInner
+	PIn   *ZInner
+	PPIn  **ZInner
+	Items []int
+	Strs  []string
+	Anys  []interface{}
+	Arr   [3]int
+	M     map[string]int
+	MI    map[int]string
+	MN    map[ZKey]string
+	MA    map[string]interface{}
+	MP    map[string]*ZInner
+	MK    map[interface{}]string
+	ME    map[string]string // has the empty string as a key
+	Iface interface{}
+	SF    ZShadowFirst
+	SL    ZShadowLast
+	DP    ZDeep
+	Word  string
+	Nest  ZN0
+	Win   []string // a window on a longer backing array: cap > len
+	PS    ZPtrShallow
+	// unnamed struct types: their method sets hold the methods promoted from what they embed
+	Anon struct {
+		ZInner
+		Extra string
+	}
+	PAnon *struct {
+		*ZInner
+		Extra string
+	}
 	Doc     ZDoc
 	private string
 }
@@ -153,8 +162,16 @@ func zooRoot(variant int) interface{} {
 		Word:  "hello",
 		Nest:  ZN0{ZN1: ZN1{ZN2: ZN2{ZCore: ZCore{First: "one", Second: "two", Third: "three"}}, Mid: "mid"}, Top: "top"},
 		Win:   []string{"w0", "w1", "w2", "SECRET-1", "SECRET-2"}[:3],
-		Doc:   ZDoc{ZBase{ID: 5, Title: "title-field-hidden-by-the-method"}},
-		PS:    ZPtrShallow{ZXB: ZXB{ZXA{X: 1, OnlyA: "only-a"}}, ZXP: &ZXP{X: 2, OnlyP: "only-p"}},
+		Anon: struct {
+			ZInner
+			Extra string
+		}{ZInner{Val: 21, Name: "anon-inner"}, "anon-extra"},
+		PAnon: &struct {
+			*ZInner
+			Extra string
+		}{&ZInner{Val: 22, Name: "panon-inner"}, "panon-extra"},
+		Doc: ZDoc{ZBase{ID: 5, Title: "title-field-hidden-by-the-method"}},
+		PS:  ZPtrShallow{ZXB: ZXB{ZXA{X: 1, OnlyA: "only-a"}}, ZXP: &ZXP{X: 2, OnlyP: "only-p"}},
 	}
 	switch variant {
 	case 0:
@@ -423,6 +440,10 @@ func zOptions(v reflect.Value) (valid, invalid []zStep) {
 		n := d.Len()
 		for i := 0; i < n && i < 4; i++ {
 			valid = append(valid, zStep{Kind: "index", I: i})
+		}
+		if n == 0 {
+			// nothing to index, but the empty slice of an empty (also of a nil) slice is fine
+			valid = append(valid, zStep{Kind: "slice", I: 0, J: -1}, zStep{Kind: "slice", I: 0, J: 0})
 		}
 		if n > 0 {
 			valid = append(valid, zStep{Kind: "slice", I: 0, J: -1}, zStep{Kind: "slice", I: n - 1, J: n}, zStep{Kind: "slice", I: 0, J: n - 1})
